@@ -282,7 +282,9 @@ extern('SmtpRelayClient._disconnect', params={'self': 'SmtpRelayClient'}, yields
        notes='SmtpRelayClient._disconnect assumed at its call site in _run (QUIT best effort, socket closed)')
 extern('AsyncResult.__bool__', params={})
 
-DONE = 'self.cur == None or self.requeued or (self.cur.answered and self.cur.n_answers == 1)'
+# ... exactly one of the two: put back UNANSWERED (the next client answers it), or answered once by this client
+DONE = ('self.cur == None or (self.requeued and self.cur.n_answers == 0) '
+        'or (not self.requeued and self.cur.answered and self.cur.n_answers == 1)')
 contract('SmtpRelayClient._run', props=['C11', 'C19'], yields=True,
          params={'self': 'SmtpRelayClient'},
          requires=['self.queue != None', 'INV_deque(self.queue)', 'not self.requeued'],
@@ -293,7 +295,7 @@ contract('SmtpRelayClient._run', props=['C11', 'C19'], yields=True,
          # by _deliver
          ensures=[DONE],
          raises={'OtherException': [DONE], 'AssertionError': [DONE], 'OSError': [DONE], 'TypeError': [DONE]},
-         modifies=['self.cur', 'self.requeued', 'self.socket', 'self.client', 'self.queue.n', 'self.queue.sema.counter',
+         modifies=['self.cur', 'self.requeued', 'self.socket', 'self.client', 'self.queue.n', 'self.queue.sema.counter', 'self.queue.sema.held',
                    'any(AsyncResult).answered', 'any(AsyncResult).n_answers', 'any(AsyncResult).is_exc', 'any(AsyncResult).value',
                    'any(Reply).code', 'any(Reply).message', 'fresh'],
          locals={'result': 'AsyncResult', 'envelope': 'Envelope'},
